@@ -48,7 +48,18 @@ def run_impl(binp, cases):
     blocks = so.rstrip("\n").split("\n==\n")
     if rc != 0 or len(blocks) != len(cases):
         raise RuntimeError("futures-driver rc=%d blocks=%d/%d %s" % (rc, len(blocks), len(cases), se[-1500:]))
-    return [b.split("\n") for b in blocks]
+    res = []
+    AGAIN.clear()
+    for b in blocks:
+        ls = b.split("\n")
+        AGAIN.append([l[len("again "):] for l in ls if l.startswith("again ")])
+        res.append([l for l in ls if not l.startswith("again ")])
+    return res
+
+
+# per scenario of the last run_impl: what the same tree showed when it was built again in the re-used root right after the final
+# root disposal (before the executor dropped the cancelled tasks); must equal the scenario's first line
+AGAIN = []
 
 
 def run_model(pid, cases, chunk=40):
